@@ -4,26 +4,30 @@ use crate::model::*;
 use vcore::Tier;
 
 /// module-path forms (what stands before the item name in a dotted
-/// reference, and what a whole-module import names). The first
-/// `QUICK_PFORMS` are the forms of DESIGN C13 plus `super.pkg`.
+/// reference, and what a whole-module import names). The first `FULL_PFORMS`
+/// are the forms of DESIGN C13; as import paths they are combined with every
+/// import kind x placement x shadow. The remaining ("lite") forms are combined
+/// with every import kind x placement, without local shadows.
 pub const PFORMS: [&[Seg]; 15] = [
     &["a"],
     &["super"],
     &["pkg", "a"],
     &["super", "b"],
     &["super", "super"],
+    // lite
     &["super", "pkg"],
     &["pkg"],
+    &["a", "c"],
     &["b"],
     &["c"],
-    &["a", "c"],
     &["pkg", "a", "c"],
     &["super", "a"],
     &["super", "super", "b"],
     &["a", "a"],
     &["pkg", "super"],
 ];
-pub const QUICK_PFORMS: usize = 6;
+pub const FULL_PFORMS: usize = 5;
+pub const QUICK_PFORMS: usize = 8;
 
 #[derive(Clone, Copy, PartialEq, Eq, Debug)]
 pub enum Shadow {
@@ -64,8 +68,13 @@ pub enum Place {
     /// the site: imports are not members and a module does not see its
     /// parent's scope)
     Foreign,
+    /// the same, and the use goes through the parent with `super.`: an import
+    /// of the parent is not a member of the parent
+    ForeignViaSuper,
+    /// the same with the absolute path of the parent
+    ForeignViaAbs,
 }
-const PLACES: [Place; 8] = [
+const PLACES: [Place; 10] = [
     Place::TopBefore,
     Place::TopAfter,
     Place::InBefore,
@@ -74,6 +83,8 @@ const PLACES: [Place; 8] = [
     Place::OuterAfter,
     Place::Sibling,
     Place::Foreign,
+    Place::ForeignViaSuper,
+    Place::ForeignViaAbs,
 ];
 
 #[derive(Clone, Copy, PartialEq, Eq, Debug)]
@@ -103,8 +114,30 @@ pub enum Unit {
 pub fn n_trees(tier: Tier) -> usize {
     tier.pick(QUICK_TREES, TREE_PATHS.len())
 }
+/// number of import groups (path forms used as import paths) of a tier
 pub fn n_pforms(tier: Tier) -> usize {
     tier.pick(QUICK_PFORMS, PFORMS.len())
+}
+
+/// shadows combined with imports (group >= 1)
+pub fn import_shadows(tier: Tier, group: usize) -> &'static [Shadow] {
+    if group > FULL_PFORMS {
+        return &[Shadow::None];
+    }
+    match tier {
+        Tier::Quick => &[Shadow::None, Shadow::LetInnerFirst, Shadow::ParamFirst],
+        Tier::Thorough => &SHADOWS,
+    }
+}
+
+/// use kinds that get import groups (the others only group 0: all record
+/// uses go through the same path resolution)
+pub fn kind_has_import_groups(tier: Tier, kind: Kind) -> bool {
+    match kind {
+        Kind::Call | Kind::Const => true,
+        Kind::RecLit => tier == Tier::Thorough,
+        Kind::RecTy => false,
+    }
 }
 
 pub fn unit_table(tier: Tier) -> Vec<Unit> {
@@ -116,6 +149,9 @@ pub fn unit_table(tier: Tier) -> Vec<Unit> {
             for site in 0..n {
                 for kind in KINDS {
                     for group in 0..=n_pforms(tier) {
+                        if group > 0 && !kind_has_import_groups(tier, kind) {
+                            continue;
+                        }
                         v.push(Unit::Probes { tree: t, placement: p, site, kind, group });
                     }
                 }
@@ -167,7 +203,7 @@ fn apply_shadow(p: &mut Prog, sh: Shadow) {
 fn place_ok(pl: Place, nest: Nest, site: usize) -> bool {
     match pl {
         Place::TopBefore | Place::TopAfter => true,
-        Place::Foreign => site != 0,
+        Place::Foreign | Place::ForeignViaSuper | Place::ForeignViaAbs => site != 0,
         Place::InBefore | Place::InAfter => nest != Nest::ItemLevel,
         Place::OuterBefore | Place::OuterAfter => nest.has_inner(),
         Place::Sibling => nest.has_sibling(),
@@ -188,7 +224,28 @@ fn apply_place(p: &mut Prog, pl: Place, stmts: Vec<ImportStmt>, world: &World) {
         Place::OuterBefore => p.fnb.imports_before = stmts,
         Place::OuterAfter => p.fnb.imports_after = stmts,
         Place::Sibling => p.sibling = stmts,
-        Place::Foreign => p.foreign = Some((world.tree.mods[p.site].parent.unwrap(), stmts)),
+        Place::Foreign | Place::ForeignViaSuper | Place::ForeignViaAbs => {
+            let par = world.tree.mods[p.site].parent.unwrap();
+            p.foreign = Some((par, stmts));
+            let mut prefix: Path = match pl {
+                Place::ForeignViaSuper => vec!["super"],
+                Place::ForeignViaAbs => {
+                    let mut v: Path = vec!["pkg"];
+                    let mut chain = vec![];
+                    let mut c = par;
+                    while let Some(pp) = world.tree.mods[c].parent {
+                        chain.push(world.tree.mods[c].name);
+                        c = pp;
+                    }
+                    chain.reverse();
+                    v.extend(chain);
+                    v
+                }
+                _ => vec![],
+            };
+            prefix.extend(p.use_path.iter());
+            p.use_path = prefix;
+        }
     }
 }
 
@@ -199,9 +256,12 @@ fn bind_name(world: &World, from: usize, pf: &[Seg]) -> Seg {
     if last != "super" {
         return last;
     }
+    if pf.iter().any(|s| *s != "super") {
+        // `super` after another segment never resolves
+        return "a";
+    }
     let mut cur = from;
-    for s in pf {
-        debug_assert_eq!(*s, "super");
+    for _ in pf {
         match world.tree.mods[cur].parent {
             Some(p) => cur = p,
             None => return "a",
@@ -219,7 +279,7 @@ fn rec_variants(world: &World, kind: Kind) -> Vec<usize> {
 }
 
 /// The probes of one unit, in a fixed order (index = case number).
-pub fn probes(world: &World, site: usize, kind: Kind, group: usize) -> Vec<Prog> {
+pub fn probes(world: &World, site: usize, kind: Kind, group: usize, tier: Tier) -> Vec<Prog> {
     let x = kind.item().name();
     let y = ITEM_NAMES[(kind.item() as usize + 1) % 3];
     let variants = rec_variants(world, kind);
@@ -257,7 +317,7 @@ pub fn probes(world: &World, site: usize, kind: Kind, group: usize) -> Vec<Prog>
                 }
                 // the module the import statement stands in decides what a
                 // trailing `super` is called
-                let from = if pl == Place::Foreign { world.tree.mods[site].parent.unwrap() } else { site };
+                let from = if matches!(pl, Place::Foreign | Place::ForeignViaSuper | Place::ForeignViaAbs) { world.tree.mods[site].parent.unwrap() } else { site };
                 let bind = bind_name(world, from, pf);
                 let mut px = pf.to_vec();
                 px.push(x);
@@ -274,14 +334,15 @@ pub fn probes(world: &World, site: usize, kind: Kind, group: usize) -> Vec<Prog>
                         vec![x],
                     ),
                 };
-                for sh in SHADOWS {
-                    if !shadow_ok(sh, nest, &use_path) {
+                let mut base = Prog::new(site, nest, kind, use_path.clone());
+                apply_place(&mut base, pl, stmts.clone(), world);
+                for &sh in import_shadows(tier, group) {
+                    if !shadow_ok(sh, nest, &base.use_path) {
                         continue;
                     }
                     for &v in &variants {
-                        let mut p = Prog::new(site, nest, kind, use_path.clone());
+                        let mut p = base.clone();
                         p.rec_variant = v;
-                        apply_place(&mut p, pl, stmts.clone(), world);
                         apply_shadow(&mut p, sh);
                         out.push(p);
                     }
